@@ -292,7 +292,7 @@ def normal_rules(chk, S, r3, fam):
     want = AD.AT([AD.axis(fam.d), AD.axis(n, E)] if fam.name == "blockdiag" else [AD.axis(n, E)], SIG)
     r3.require(True if (ok and ts is not None and AD.same_type(ts, want)) else (None if (ok and ts is None) else False), f"{nname}.std", f"row norms of the Cholesky factor : {AD.show(ts)}", f"std is {T.show(sd, 4)} : {AD.show(ts)}; expected per-coefficient norms {AD.show(want)}", where, cfg)
     norms = [x for x in T.subterms(sd) if x.op in ("linalg.vector_norm", "linalg.qr_r")]
-    r3.require(len(norms) == 1 and "rv.chol" in T.atoms_of(norms[0]) and "rv.mean" not in T.atoms_of(sd), f"{nname}.std source", "computed from the Cholesky factor only", f"{T.show(sd, 4)}", where, cfg)
+    r3.require(len(norms) == 1 and "rv.chol" in T.atoms_of(norms[0]) and "rv.mean" not in T.value_atoms(sd), f"{nname}.std source", "computed from the values of the Cholesky factor only (the mean may lend its shape)", f"{T.show(sd, 4)}", where, cfg)
     flush(env, r3, f"{nname}.std", where, cfg)
     # to_derivative(i, std): linear map selects coefficient i, noise mean 0, noise std = std
     it = S.interp()
